@@ -215,10 +215,13 @@ class SelectResults(object):
 
     def count(self):
         """ Counting elements of current select results """
-        assert not self.ops.get('start') and not self.ops.get('end'), \
+        # an empty window ([:0]) has end == 0: test for None, not for truth
+        assert not self.ops.get('start') \
+            and self.ops.get('end') is None, \
             "start/end/limit have no meaning with 'count'"
         assert not (self.ops.get('distinct')
-                    and (self.ops.get('start') or self.ops.get('end'))), \
+                    and (self.ops.get('start')
+                         or self.ops.get('end') is not None)), \
             "distinct-counting of sliced objects is not supported"
         if self.ops.get('distinct'):
             # Column must be specified, so we are using unique ID column.
